@@ -28,6 +28,8 @@ pub enum HOp {
     /// next subscription)
     DropAll,
     DropVec,
+    /// the vector is consumed by `into_inner()` instead of being dropped
+    DropVecIntoInner,
 }
 
 impl HOp {
@@ -50,6 +52,7 @@ impl HOp {
             HOp::DropSub(s) => format!("drop(s{s})"),
             HOp::DropAll => "drop(all subscribers)".into(),
             HOp::DropVec => "drop(vector)".into(),
+            HOp::DropVecIntoInner => "vector.into_inner()".into(),
         }
     }
 }
@@ -651,12 +654,16 @@ fn run_inner(h: &VecHistory, deferred: std::rc::Rc<std::cell::RefCell<Option<Str
                 mon.subs[i].pending = None;
             }
             HOp::DropVec => {
-                drop_vec(&mut ob, &mut mon)?;
+                drop_vec(&mut ob, &mut mon, false)?;
+            }
+            HOp::DropVecIntoInner => {
+                drop_vec(&mut ob, &mut mon, true)?;
             }
         }
     }
     // end of history: drop the vector (if still alive) and drain everything to the end
-    drop_vec(&mut ob, &mut mon)?;
+    // (histories that did not end the vector themselves: dropped, or consumed by into_inner())
+    drop_vec(&mut ob, &mut mon, h.ops.len() % 3 == 1)?;
     let fin = mon.final_contents.clone().unwrap();
     for i in 0..mon.subs.len() {
         if mon.subs[i].stream.is_some() {
@@ -676,10 +683,20 @@ fn run_inner(h: &VecHistory, deferred: std::rc::Rc<std::cell::RefCell<Option<Str
     Ok(mon.facts.clone())
 }
 
-fn drop_vec(ob: &mut Option<ObservableVector<Tracked>>, mon: &mut Mon) -> Result<(), Div> {
+fn drop_vec(ob: &mut Option<ObservableVector<Tracked>>, mon: &mut Mon, into_inner: bool) -> Result<(), Div> {
     if let Some(o) = ob.take() {
         mon.final_contents = Some(contents(&o));
-        drop(o);
+        if into_inner {
+            // the vector is gone just the same; what comes out are its contents
+            let inner = o.into_inner();
+            let got = items_of(inner.iter());
+            if vals(&got) != vals(mon.final_contents.as_ref().unwrap()) {
+                return div("C17", format!("into_inner() returned {:?}, the contents were {:?}", vals(&got), vals(mon.final_contents.as_ref().unwrap())));
+            }
+            drop(inner);
+        } else {
+            drop(o);
+        }
         mon.check_wake_obligations(true)?;
         mon.poll_ref();
         if mon.has_ref() && !mon.ref_ended {
@@ -1054,7 +1071,7 @@ pub fn gen_vec_history(rng: &mut Rng, g: &GenCfg) -> VecHistory {
             continue;
         }
         if rng.below(1000) < g.drop_vec_pct {
-            ops.push(HOp::DropVec);
+            ops.push(if rng.chance(1, 3) { HOp::DropVecIntoInner } else { HOp::DropVec });
             // a few polls after the drop
             for _ in 0..rng.below(4) {
                 if n_subs > 0 {
